@@ -53,6 +53,8 @@ func getCP() (*counterparty, *Host) {
 				cp.commitAt = 4
 				w.Do(c, func(ctx sdk.Context) {
 					c.App.XIBCKeeper.PacketKeeper.SetPacketCommitment(ctx, "cp-1", "teleport_9000-10", 1, cp.value)
+					// and, in the same block, the acknowledgement of a packet that went the other way
+					c.App.XIBCKeeper.PacketKeeper.SetPacketAcknowledgement(ctx, "teleport_9000-10", "cp-1", 1, cp.ackValue())
 				})
 			} else {
 				w.Block(c)
@@ -63,6 +65,11 @@ func getCP() (*counterparty, *Host) {
 		hostV = NewHost()
 	})
 	return cpVal, hostV
+}
+
+func (cp *counterparty) ackValue() []byte {
+	h := sha256.Sum256([]byte("acknowledgement"))
+	return h[:]
 }
 
 func (cp *counterparty) timeOf(h int64) time.Time { return T0.Add(time.Duration(h-2) * 5 * time.Second) }
@@ -93,13 +100,17 @@ func (cp *counterparty) header(h int64, trusted uint64, disjoint bool) *xibctmty
 }
 
 func (cp *counterparty) headerWith(h int64, trusted uint64, disjoint bool, appHash []byte) *xibctmtypes.Header {
+	return cp.headerAt(h, trusted, disjoint, appHash, cp.timeOf(h))
+}
+
+func (cp *counterparty) headerAt(h int64, trusted uint64, disjoint bool, appHash []byte, ts time.Time) *xibctmtypes.Header {
 	vals, next := cp.valsAt(h, disjoint)
 	_, tnext := cp.valsAt(int64(trusted), disjoint)
 	signers := map[string]bool{}
 	for _, v := range vals.Validators {
 		signers[string(v.Address)] = true
 	}
-	return Build(HeaderSpec{ChainID: ChainID, Height: h, Time: cp.timeOf(h), AppHash: appHash, Vals: vals, NextVals: next,
+	return Build(HeaderSpec{ChainID: ChainID, Height: h, Time: ts, AppHash: appHash, Vals: vals, NextVals: next,
 		Signers: signers, Trusted: clienttypes.NewHeight(1, trusted), TrustVals: tnext})
 }
 
@@ -155,6 +166,15 @@ func (s *histSys) Ops() []string {
 			}
 		}
 	}
+	// a validly signed header for a height below the head whose block time lies after the head's (a header only has to be
+	// newer than the state it trusts): once the head has expired the client accepts nothing, however fresh that state is
+	for _, h := range []int64{3, 4} {
+		for _, t := range stored {
+			if t < uint64(h) && uint64(h) < s.m.Latest {
+				out = append(out, fmt.Sprintf("late %d %d", h, t))
+			}
+		}
+	}
 	out = append(out, "adv 5s", "adv 10s", "adv to-expiry-1ns", "adv past-expiry")
 	for h := int64(2); h <= maxH; h++ {
 		out = append(out, fmt.Sprintf("ver %d", h))
@@ -204,13 +224,18 @@ func (s *histSys) Apply(op string) (obs, class string, viols []bfs.Viol) {
 		}
 		s.ctx = s.ctx.WithBlockTime(s.now)
 		return "adv", "advance clock", nil
-	case "upd", "alt":
+	case "upd", "alt", "late":
 		var h int64
 		var t uint64
 		fmt.Sscan(f[1], &h)
 		fmt.Sscan(f[2], &t)
 		hdr := s.cp.header(h, t, s.b.Disjoint)
 		appHash := s.cp.c.AppHashAfter[h-1]
+		hdrTime := s.cp.timeOf(h)
+		if f[0] == "late" {
+			hdrTime = s.m.Cons[s.m.Latest].Time.Add(2 * time.Nanosecond)
+			hdr = s.cp.headerAt(h, t, s.b.Disjoint, appHash, hdrTime)
+		}
 		if f[0] == "alt" {
 			alt := sha256.Sum256(append([]byte("another block at this height/"), appHash...))
 			appHash = alt[:]
@@ -219,7 +244,7 @@ func (s *histSys) Apply(op string) (obs, class string, viols []bfs.Viol) {
 		before := s.h.DumpClient(s.ctx)
 		trusted, okT := s.m.Cons[t]
 		// necessary conditions of the statement
-		may := okT && uint64(h) > t && !s.expired(trusted.Time) && s.cp.timeOf(h).Before(s.now.Add(Drift)) && !s.expired(s.m.Cons[s.m.Latest].Time)
+		may := okT && uint64(h) > t && !s.expired(trusted.Time) && hdrTime.Before(s.now.Add(Drift)) && !s.expired(s.m.Cons[s.m.Latest].Time)
 		if may && s.b.Disjoint && uint64(h) != t+1 && t < 3 && h >= 4 {
 			may = false // skipping over a change to a disjoint set: nobody of the trusted set signed
 		}
@@ -252,7 +277,7 @@ func (s *histSys) Apply(op string) (obs, class string, viols []bfs.Viol) {
 			class += " (skipping)"
 		}
 		if !may {
-			add("update-accepted-against-statement", fmt.Sprintf("upd %d trusting %d accepted at now=%s: trusted stored=%v, trusted time=%s, latest time=%s, header time=%s", h, t, s.now, okT, trusted.Time, s.m.Cons[s.m.Latest].Time, s.cp.timeOf(h)))
+			add("update-accepted-against-statement", fmt.Sprintf("upd %d trusting %d accepted at now=%s: trusted stored=%v, trusted time=%s, latest time=%s, header time=%s", h, t, s.now, okT, trusted.Time, s.m.Cons[s.m.Latest].Time, hdrTime))
 		}
 		_, next := s.cp.valsAt(h, s.b.Disjoint)
 		if earliestExpired && earliest != uint64(h) {
@@ -263,7 +288,7 @@ func (s *histSys) Apply(op string) (obs, class string, viols []bfs.Viol) {
 				class += " +pruned"
 			}
 		}
-		s.m.Cons[uint64(h)] = ModelCons{s.cp.timeOf(h), appHash, next.Hash(), s.now}
+		s.m.Cons[uint64(h)] = ModelCons{hdrTime, appHash, next.Hash(), s.now}
 		if uint64(h) > s.m.Latest {
 			s.m.Latest = uint64(h)
 		}
@@ -307,6 +332,18 @@ func (s *histSys) Apply(op string) (obs, class string, viols []bfs.Viol) {
 				class = "genuine proof refused (informational)"
 			}
 		}
+		// the acknowledgement written in the same block: its proof is honoured under exactly the same conditions
+		aproof, _, _ := s.cp.c.QueryProof(host.PacketAcknowledgementKey("teleport_9000-10", "cp-1", 1), h)
+		aerr := cs.VerifyPacketAcknowledgement(s.ctx, st, s.h.C.App.AppCodec(), ph, aproof, "teleport_9000-10", "cp-1", 1, s.cp.ackValue())
+		if aerr == nil && !may {
+			add("proof-honoured-against-statement", fmt.Sprintf("ver %d: acknowledgement proof honoured: stored=%v latest=%d delayPassed=%v genuine=%v now=%s processed=%s delay=%s", h, stored, s.m.Latest, delayOK, genuine, s.now, mc.Processed, time.Duration(s.delay)))
+		}
+		if (aerr == nil) != (err == nil) {
+			class += " / acknowledgement proof treated differently"
+			if aerr == nil || may {
+				add("acknowledgement-proof-treated-differently-from-commitment-proof", fmt.Sprintf("ver %d: commitment proof err=%v, acknowledgement proof err=%v (same block, same height, same delay)", h, err, aerr))
+			}
+		}
 		return class, class, viols
 	}
 	panic("bad op " + op)
@@ -330,6 +367,9 @@ func (s *histSys) Key() string {
 		alt := ""
 		if int64(k) >= 1 && string(v.Root) != string(s.cp.c.AppHashAfter[int64(k)-1]) {
 			alt = "a" // holds the other block's application hash
+		}
+		if !v.Time.Equal(s.cp.timeOf(int64(k))) {
+			alt += "l" // stored from a header whose block time lies after the head's: it expires later than the head
 		}
 		ks = append(ks, fmt.Sprintf("%d%s%s%s", k, age[:1], exp, alt))
 	}
